@@ -1143,6 +1143,115 @@ static void sc_oarr(SB* s, Toks* k)
 	sb_printf(s, " live=%ld", vf_live - live0);
 }
 
+/* radd HEX K : appending to what the READERS returned (C11/C10): K columns added to the table
+   metadata read from the stream (sbdf_tm_add) and written back; on the first slice, K properties
+   added to its first column slice (sbdf_cs_add_property) and K new column slices appended
+   (sbdf_ts_add), then the slice is written.  Reader-built slices own what is added to them. */
+static void sc_radd(SB* s, Toks* k)
+{
+	int l, maj = -1, min = -1, st, i, K, nmine = 0;
+	unsigned char* b = unhex(nx(k), &l);
+	sbdf_tablemetadata* tm = 0;
+	sbdf_tableslice* ts = 0;
+	sbdf_valuearray* mine[64];
+	long live0;
+	size_t n;
+	unsigned char* bytes;
+	K = (int)nxl(k);
+	if (K > 64) K = 64;
+	live0 = vf_live;
+	f_load(g_f, b, (size_t)l);
+	st = sbdf_fh_read(g_f, &maj, &min);
+	sb_printf(s, "fh=%d", st);
+	if (!st) { st = sbdf_tm_read(g_f, &tm); sb_printf(s, " tm=%d", st); if (st) tm = 0; }
+	if (!st)
+	{
+		st = sbdf_ts_read(g_f, tm, 0, &ts);
+		sb_printf(s, " ts=%d", st);
+		if (st) ts = 0;
+		sb_puts(s, " tmadd=");
+		for (i = 0; i < K; ++i)
+		{
+			sbdf_metadata_head* cm = 0;
+			char name[16];
+			sbdf_valuetype vt;
+			int e;
+			vt.id = SBDF_INTTYPEID;
+			sprintf(name, "x%d", i);
+			e = sbdf_md_create(&cm);
+			if (!e) e = sbdf_cm_set_values(name, vt, cm);
+			if (!e) e = sbdf_tm_add(cm, tm);
+			sb_printf(s, "%s%d", i ? "," : "", e);
+			sbdf_md_destroy(cm);
+		}
+		sb_printf(s, ":%d", tm->no_columns);
+		f_reset(g_w);
+		st = sbdf_tm_write(g_w, tm);
+		bytes = f_slurp(g_w, &n);
+		sb_printf(s, " tmw=%d:", st);
+		sb_hexq(s, bytes, n);
+		free(bytes);
+		if (ts && ts->no_columns > 0 && ts->columns[0])
+		{
+			sbdf_columnslice* c0 = ts->columns[0];
+			int rows = sbdf_cs_row_cnt(c0);
+			sb_puts(s, " padd=");
+			for (i = 0; i < K; ++i)
+			{
+				char name[16];
+				sbdf_valuetype vt;
+				sbdf_object* o = 0;
+				sbdf_valuearray* va = 0;
+				unsigned char* zeros = calloc((size_t)(rows > 0 ? rows : 1), 4);
+				int e;
+				vt.id = SBDF_INTTYPEID;
+				sprintf(name, "q%d", i);
+				e = sbdf_obj_create_arr(vt, rows, zeros, 0, &o);
+				if (!e) e = sbdf_va_create_plain(o, &va);
+				if (!e) { e = sbdf_cs_add_property(c0, name, va); if (e) sbdf_va_destroy(va); }
+				sb_printf(s, "%s%d", i ? "," : "", e);
+				sbdf_obj_destroy(o);
+				free(zeros);
+			}
+			sb_printf(s, ":%d", c0->prop_cnt);
+		}
+		if (ts)
+		{
+			sb_puts(s, " cadd=");
+			for (i = 0; i < K; ++i)
+			{
+				sbdf_valuetype vt;
+				sbdf_object* o = 0;
+				sbdf_valuearray* va = 0;
+				sbdf_columnslice* cs = 0;
+				unsigned char one[4] = { 7, 0, 0, 0 };
+				int e;
+				vt.id = SBDF_INTTYPEID;
+				one[1] = (unsigned char)i;
+				e = sbdf_obj_create_arr(vt, 1, one, 0, &o);
+				if (!e) e = sbdf_va_create_plain(o, &va);
+				if (!e) { e = sbdf_cs_create(&cs, va); if (e) sbdf_va_destroy(va); }
+				if (!e) { e = sbdf_ts_add(cs, ts); if (e) sbdf_cs_destroy_all(cs); else mine[nmine++] = va; }
+				sb_printf(s, "%s%d", i ? "," : "", e);
+				sbdf_obj_destroy(o);
+			}
+			sb_printf(s, ":%d", ts->no_columns);
+			f_reset(g_w);
+			st = sbdf_ts_write(g_w, ts);
+			bytes = f_slurp(g_w, &n);
+			sb_printf(s, " tsw=%d:", st);
+			sb_hexq(s, bytes, n);
+			free(bytes);
+		}
+	}
+	if (ts) sbdf_ts_destroy(ts);
+	/* the caller-built column slices added above were released as frames only: their values are ours */
+	for (i = 0; i < nmine; ++i) sbdf_va_destroy(mine[i]);
+	if (tm) sbdf_tm_destroy(tm);
+	sb_printf(s, " live=%ld", vf_live - live0);
+	free(b);
+}
+
 /* fsk HEX : header, table metadata, then sbdf_ts_skip until a non-OK status (C07) */
 static void sc_fsk(SB* s, Toks* k)
 {
@@ -1295,6 +1404,7 @@ static void process_line(char* line, SB* s)
 	else if (!strcmp(kind, "rtd")) sc_rt(s, &k, 2);
 	else if (!strcmp(kind, "cs")) sc_cs(s, &k);
 	else if (!strcmp(kind, "oarr")) sc_oarr(s, &k);
+	else if (!strcmp(kind, "radd")) sc_radd(s, &k);
 	else if (!strcmp(kind, "fsk")) sc_fsk(s, &k);
 	else if (!strcmp(kind, "oskip")) sc_oskip(s, &k);
 	else if (!strcmp(kind, "fr")) sc_fr(s, &k, 0);
